@@ -6,7 +6,8 @@
 (* directories, declares a size and carries an actual amount of data       *)
 (* (lying headers), and may itself be an archive (nested, to depth 2 here; *)
 (* deeper nesting and fan-out come from the recorded direction) or a       *)
-(* non-zip file with a zip name.  Limits: per-file size, total size, file  *)
+(* non-zip file with a zip name, or a chain of explicit directory entries  *)
+(* with nothing in them.  Limits: per-file size, total size, file  *)
 (* count, depth (negative = disabled), recursive or not.  Sizes are in     *)
 (* abstract units (the harness scales them; real sizes are never smaller). *)
 (* The specification computes the tree a full extraction would leave and   *)
@@ -35,6 +36,8 @@ Templates == { [kind |-> "file", dirs |-> d, declared |-> s, actual |-> s, inner
                [kind |-> "fakezip", dirs |-> 0, declared |-> 3, actual |-> 3, inner |-> "none", again |-> FALSE],
                \* a zip64 header declaring 2^63 bytes or more (beyond every limit, negative once read as a signed size) over a small stream
                [kind |-> "file", dirs |-> 0, declared |-> Overflow, actual |-> 3, inner |-> "none", again |-> FALSE] }
+       \* explicit directory entries and nothing in them: "q0/", "q0/q1/", ... (each an item of the tree at the depth of its path)
+       \cup  { [kind |-> "dirchain", dirs |-> d, declared |-> 0, actual |-> 0, inner |-> "none", again |-> FALSE] : d \in {1, 3} }
        \cup  { [kind |-> "nested", dirs |-> d, declared |-> 0, actual |-> 0, inner |-> i, again |-> a] : d \in 0..1, i \in DOMAIN Inner, a \in BOOLEAN }
 
 CONSTANT Thorough   \* FALSE: a covering subset of archives and limit configurations (quick tier)
@@ -42,7 +45,7 @@ CONSTANT Thorough   \* FALSE: a covering subset of archives and limit configurat
 LimitValues == {0, 1, 2, 3, Big}
 VARIABLES archive, maxFile, maxTotal, maxCount, maxDepth, recursive
 vars == <<archive, maxFile, maxTotal, maxCount, maxDepth, recursive>>
-Core == {t \in Templates : (t.kind = "file" /\ t.dirs = 1) \/ t.kind = "fakezip" \/ t.declared = Overflow \/ (t.kind = "nested" /\ t.dirs = 0 /\ ~t.again /\ t.inner \in {"two", "bomb"})
+Core == {t \in Templates : (t.kind = "file" /\ t.dirs = 1) \/ t.kind = "fakezip" \/ t.kind = "dirchain" \/ t.declared = Overflow \/ (t.kind = "nested" /\ t.dirs = 0 /\ ~t.again /\ t.inner \in {"two", "bomb"})
                             \/ (t.kind = "nested" /\ t.dirs = 1 /\ t.again /\ t.inner = "deep")}
 Archives == {<<t>> : t \in Templates} \cup {<<t, u>> : t \in (IF Thorough THEN Templates ELSE Core), u \in (IF Thorough THEN Templates ELSE Core)}
 \* each limit independently tiny / exact / off by one / huge; at most two (quick: one) limits away from "huge" at a time
@@ -50,6 +53,9 @@ Tight(f, t, c, d) == (IF f # Big THEN 1 ELSE 0) + (IF t # Big THEN 1 ELSE 0) + (
 Init == /\ archive \in Archives /\ maxFile \in LimitValues /\ maxTotal \in {1, 2, 3, 6, Big} /\ maxCount \in LimitValues
         /\ maxDepth \in {-1, 0, 1, 2, 4} /\ recursive \in BOOLEAN
         /\ Tight(maxFile, maxTotal, maxCount, maxDepth) <= (IF Thorough THEN 2 ELSE 1)
+        \* "number of files": whether a directory entry counts is left open by the statement (the library counts it, but only checks the
+        \* count after the next file): archives with explicit directory entries are judged on the other limits
+        /\ ((\E k \in 1..Len(archive) : archive[k].kind = "dirchain") => maxCount = Big)
 Next == UNCHANGED vars
 Spec == Init /\ [][Next]_vars
 
@@ -60,6 +66,7 @@ InnerFiles(i, base, again) ==
 EntryFiles(e) ==
     IF e.kind = "nested" /\ recursive
     THEN InnerFiles(e.inner, e.dirs + 1, e.again)                       \* unpacked into <dirs>/<stem>/ ; the nested archive itself is removed
+    ELSE IF e.kind = "dirchain" THEN [k \in 1..e.dirs |-> [size |-> 0, depth |-> k - 1]]
     ELSE << [size |-> e.declared, depth |-> e.dirs] >>
 RECURSIVE AllFiles(_)
 AllFiles(a) == IF a = <<>> THEN <<>> ELSE EntryFiles(Head(a)) \o AllFiles(Tail(a))
